@@ -110,6 +110,9 @@ def extra_objects(spec, objs, cons, vol):
 
 def scene(c):
     spec = c["spec"]
+    if spec.get("rect_widths"):      # explicit RectilinearGrid in the configuration (cell widths in metres per axis)
+        edges = [jnp.asarray(np.concatenate([[0.0], np.cumsum(np.asarray(w, dtype=np.float64))])) for w in spec["rect_widths"]]
+        spec = dict(spec, grid_obj=fdtdx.RectilinearGrid.custom(*edges))
     cfg = base_config(spec)
     cfg = set_steps(cfg, int(spec.get("steps", 4)))
     objs, cons, vol = make_objects(spec, cfg.time_step_duration)
